@@ -177,7 +177,14 @@ class SourceDataWrapper(ABC):
 
         chunk = np.zeros(n_rows, dtype=self._dtype)
         for key, loc in self._mapping.items():
-            chunk[key] = self._data_source[loc][idx]
+            try:
+                # numpy leaves the result of casting NaN, infinities or too large floats to an integer type undefined
+                # (it even differs with the number of rows cast at once); do not write such numbers
+                with np.errstate(invalid='raise'):
+                    chunk[key] = self._data_source[loc][idx]
+            except FloatingPointError:
+                raise ValueError(f"Data set '{loc}' has values which cannot be cast to {self._dtype[key].base} "
+                                 f"(not-a-number, infinite, or outside of the range of that type)")
 
         return chunk
 
